@@ -39,6 +39,21 @@ ASSUMPTIONS = [
 STACKS = ["pooled", "hash", "hash-pooled", "retry1"]
 
 
+# equivalent spellings of the server in the configuration: name -> (the address the server listens on, how the client is told)
+SERVER_SPELLINGS = {
+    "ip-no-port": (("127.0.0.1", 11211), "127.0.0.1"), "name-no-port": (("localhost", 11211), "localhost"), "name:port": (("mc1", 11211), "mc1:11211"),
+    "Name:port": (("Cache-A.Example.COM", 11212), "Cache-A.Example.COM:11212"), "[v6]:port": (("::1", 11311), "[::1]:11311"), "[v6]": (("fe80::A", 11211), "[fe80::A]"),
+    "unix:path": ("/tmp/mc.sock", "unix:/tmp/mc.sock"), "path": ("/var/run/mc.sock", "/var/run/mc.sock"), "tuple-text-port": (("mc1", 11211), ("mc1", "11211")),
+}
+
+
+def _env(cfg):
+    if cfg.get("server"):
+        addr, spec = SERVER_SPELLINGS[cfg["server"]]
+        return Env(addrs=[addr], spec=spec)
+    return Env()
+
+
 def build_kwargs(cfg, env):
     kw = {}
     for k in ("key_prefix", "default_noreply", "encoding", "allow_unicode_keys", "connect_timeout", "timeout", "no_delay"):
@@ -90,7 +105,7 @@ def preload(env, cfg, state):
 def run_stack(stack, cfg, state, r):
     if cfg.get("serde") is not None and cfg.get("legacy"):
         cfg = {k: v for k, v in cfg.items() if k != "legacy"}
-    env = Env()
+    env = _env(cfg)
     kw = build_kwargs(cfg, env)
     if stack in ("client", "retry1", "retry3"):
         c = env.client("client", **kw)
@@ -118,7 +133,7 @@ def run_sequence(stack, cfg, state, seq):
     """several calls on ONE stack object: -> [(result, commands the server parsed during this call)], env"""
     if cfg.get("serde") is not None and cfg.get("legacy"):
         cfg = {k: v for k, v in cfg.items() if k != "legacy"}
-    env = Env()
+    env = _env(cfg)
     kw = build_kwargs(cfg, env)
     if stack in ("client", "retry1"):
         c = env.client("client", **kw)
@@ -182,7 +197,7 @@ def run_lifecycle(stack, cfg, event, decoy):
     from vlib.harness import virtual_time
     if cfg.get("serde") is not None and cfg.get("legacy"):
         cfg = {k: v for k, v in cfg.items() if k != "legacy"}
-    env = Env()
+    env = _env(cfg)
     srv = env.server
     with virtual_time(env.clock):
         c = _make_stack(stack, env, build_kwargs(cfg, env))
@@ -399,6 +414,8 @@ CFGS = [
     {}, {"key_prefix": b"p:"}, {"key_prefix": "p:"}, {"default_noreply": False}, {"encoding": "utf-8"}, {"encoding": "latin-1"},
     {"allow_unicode_keys": True}, {"serde": ("pickle", 2)}, {"serde": ("compressed", 1)}, {"serde": ("json",)},
     {"legacy": "both"}, {"legacy": "serializer"}, {"legacy": "deserializer"}, {"legacy": "deserializer", "key_prefix": b"p:"},
+    {"server": "ip-no-port"}, {"server": "name-no-port", "key_prefix": b"p:"}, {"server": "name:port"}, {"server": "Name:port", "default_noreply": False}, {"server": "[v6]:port"},
+    {"server": "[v6]", "serde": ("pickle", 2)}, {"server": "unix:path"}, {"server": "path", "default_noreply": False}, {"server": "tuple-text-port"},
     {"connect_timeout": 1.5, "timeout": 2.5}, {"timeout": 0.5}, {"no_delay": True}, {"keepalive": [2, 3, 4]}, {"tls": True},
     {"key_prefix": "ns/", "default_noreply": False, "encoding": "utf-8", "allow_unicode_keys": True, "serde": ("pickle", 0),
      "connect_timeout": 3, "timeout": 0.5, "no_delay": True, "keepalive": [1, 1, 5], "tls": True},
@@ -425,6 +442,7 @@ def random_strategy(tier):
         "no_delay": st.booleans(),
         "keepalive": st.sampled_from([None, [1, 1, 5], [7, 2, 3]]),
         "tls": st.booleans(),
+        "server": st.sampled_from([None, None] + sorted(SERVER_SPELLINGS)),
     })
     key = st.sampled_from(["k", b"k", "j", "zz", "ké", "bad key", b"k\r\n", "k" * 250, "€uro", "", b"caf\xe9", b"\xff\xfe", b"\x80", "caf\xe9".encode("utf-8")])
     value = st.sampled_from(["v", b"v", "é", "€", 5, -3, b"\r\nEND\r\n", "", b"x" * 5000])
